@@ -59,4 +59,43 @@ def advOk (g : Grammar) (k : Nat) : Bool :=
      | .many x _ _ => consumes g k x
      | _ => true)
 
+/-- `And`'s test for `_ErrorStop` operands, as `parseImpl` passes it -/
+def stopFn (g : Grammar) : Nat → Bool := fun i =>
+  match g[i]? with
+  | some n => (match n.kind with
+    | .errorStop => true
+    | _ => false)
+  | none => false
+
+/-- operands of an `And` (after the first) that are entered without prior consumption -/
+def andLeft (g : Grammar) (k : Nat) : List Nat → List Nat
+  | [] => []
+  | e :: es => if stopFn g e then andLeft g k es else if consumes g k e then [e] else e :: andLeft g k es
+
+/-- the references of a node that can be entered at the node's own location -/
+def leftChildren (g : Grammar) (k : Nat) (nd : Node) : List Nat :=
+  (match nd.kind with
+   | .and (e0 :: rest) => e0 :: (if consumes g k e0 then [] else andLeft g k rest)
+   | kd => kd.children) ++ nd.ignore
+
+/-- the left-reference structure below `i` is well-founded of height `< d` (computed rank for recursive tables) -/
+def leftDepthOk (g : Grammar) (k : Nat) : Nat → Nat → Bool
+  | 0, _ => false
+  | d+1, i =>
+    match g[i]? with
+    | none => false
+    | some nd => (leftChildren g k nd).all (leftDepthOk g k d)
+
+/-- **the test for recursive tables**: closed; from every node the left references are well-founded of height `< D`
+    (so every cycle passes through an `And` operand that `consumes`); a StringStart carries no ignorables -/
+def recTableOk (g : Grammar) (k D : Nat) : Bool :=
+  (List.range g.length).all fun i =>
+    match g[i]? with
+    | none => true
+    | some nd =>
+      nd.children.all (fun c => decide (c < g.length)) && leftDepthOk g k D i &&
+      (match nd.kind with
+       | .stringStart => nd.ignore.isEmpty
+       | _ => true)
+
 end PP.Parse
